@@ -59,11 +59,55 @@ class CallGraph:
         return seen
 
 
-_CG = {}
+def recursive_sccs(CG, nodes):
+    """strongly connected components with a cycle (size > 1 or a self edge) of the call graph restricted to `nodes`"""
+    nodes = set(nodes)
+    idx, low, on, st, out = {}, {}, set(), [], []
+    counter = [0]
+    for root in sorted(nodes):
+        if root in idx:
+            continue
+        # iterative Tarjan
+        work = [(root, iter(sorted(w for w in CG.edges.get(root, ()) if w in nodes)))]
+        idx[root] = low[root] = counter[0]
+        counter[0] += 1
+        st.append(root)
+        on.add(root)
+        while work:
+            v, it = work[-1]
+            adv = False
+            for w in it:
+                if w not in idx:
+                    idx[w] = low[w] = counter[0]
+                    counter[0] += 1
+                    st.append(w)
+                    on.add(w)
+                    work.append((w, iter(sorted(x for x in CG.edges.get(w, ()) if x in nodes))))
+                    adv = True
+                    break
+                elif w in on:
+                    low[v] = min(low[v], idx[w])
+            if adv:
+                continue
+            work.pop()
+            if work:
+                u = work[-1][0]
+                low[u] = min(low[u], low[v])
+            if low[v] == idx[v]:
+                comp = []
+                while True:
+                    w = st.pop()
+                    on.discard(w)
+                    comp.append(w)
+                    if w == v:
+                        break
+                if len(comp) > 1 or v in CG.edges.get(v, ()):
+                    out.append(sorted(comp))
+    return out
 
 
 def get(F):
-    k = id(F)
-    if k not in _CG:
-        _CG[k] = CallGraph(F)
-    return _CG[k]
+    # memo on the Facts object itself (id() values are reused after collection)
+    if "_callgraph" not in F.__dict__:
+        F.__dict__["_callgraph"] = CallGraph(F)
+    return F.__dict__["_callgraph"]
